@@ -15,6 +15,7 @@ HARNESSES = [
     Harness('c07_import_mixed_owned_and_borrowed_arguments', 'import.mixed_owned_borrowed_arguments', G + 'import glue, static function with own + borrow parameters'),
     Harness('c07_export_owned_parameter_dropped_once_when_user_drops_it', 'export.owned_parameter_dropped_once_with_its_value', G + 'export trampoline, HandleLift own of an exported resource'),
     Harness('c07_export_result_handle_transferred_not_dropped', 'export.new_resource_transferred_reached_through_handles_destroyed_once', G + 'type_resource: Counter::{new,get,dtor,type_guard}, CounterBorrow::{lift,get}, constructor/give trampolines, ResourceRep for Option<T> (crates/guest-rust/src/resource.rs)'),
+    Harness('c07_export_into_inner_moves_value_out_destroyed_once', 'export.into_inner_moves_value_out_destroyed_once', G + 'Counter::{into_inner, dtor}, ResourceRep::rep_take for Option<T> (crates/guest-rust/src/resource.rs)'),
 ]
 
 
